@@ -290,6 +290,56 @@ def generate_sweep(seed, index):
             "meta": {"client_kinds": ["sweep"], "interleaved": rest != sorted(rest), "cover": cover}}
 
 
+# A small fixed project and a three-layer definition for sentences that are started over (J4):
+# m1 -> m2 -> m3, so that rules with different subject layers have different outcomes.
+RESTART_WORLD = {"trees": {"t0": {"root": "pk", "dirs": ["pk"], "files": {
+    "pk/__init__.py": "", "pk/m1.py": "import pk.m2\n", "pk/m2.py": "from pk import m3\n",
+    "pk/m3.py": "VALUE = 1\n"}}}}
+RESTART_CFGS = {"c0": {"tree": "t0", "root": "pk", "module": "pk", "via": "path", "kw": {}}}
+RESTART_LAYERS = ["XA", "XB", "XC"]
+
+
+def _restart_setup():
+    ops, _ = _arch_ops("SR", [("layer", ["XA"]), ("containing_modules", ["pk.m1"]),
+                              ("layer", ["XB"]), ("containing_modules", [["pk.m2"]]),
+                              ("layer", ["XC"]), ("containing_modules", ["pk.m3"])])
+    return [{"op": "scan", "ev": "E0", "cfg": "c0"}] + ops
+
+
+def _sentence(rng, subject):
+    verb = rng.choice(LAYER_VERBS)
+    if verb == "should_not" and rng.random() < 0.25:
+        return [("are_named", [subject]), (verb, []), (rng.choice(LAYER_ANY), [])]
+    objs = rng.sample(RESTART_LAYERS, rng.randint(1, 2))
+    return [("are_named", [subject]), (verb, []), (rng.choice(LAYER_ACCESS), []),
+            ("are_named", [objs if len(objs) > 1 or rng.random() < 0.3 else objs[0]])]
+
+
+def _restart_ops(rng, c):
+    """J4: a LayerRule whose sentence is started over with layers_that() has exactly the subject
+    layer of the new sentence: it must behave like a fresh rule that was given only that sentence."""
+    s1, s2 = rng.sample(RESTART_LAYERS, 2)
+    first = _sentence(rng, s1)
+    first = first[: rng.randint(1, len(first))]  # the first sentence may be left unfinished
+    second = _sentence(rng, s2)
+    r, t = f"R{c}", f"T{c}"
+    ops = [{"op": "new", "obj": r, "cls": "LayerRule"},
+           {"op": "call", "obj": r, "m": "based_on", "a": [{"$obj": "SR"}]},
+           {"op": "call", "obj": r, "m": "layers_that", "a": []}]
+    ops += [{"op": "call", "obj": r, "m": m, "a": a} for m, a in first]
+    if len(first) >= 3 and rng.random() < 0.4:
+        ops.append({"op": "apply", "obj": r, "ev": "E0"})  # the first sentence was even evaluated
+    ops.append({"op": "call", "obj": r, "m": "layers_that", "a": []})
+    ops += [{"op": "call", "obj": r, "m": m, "a": a} for m, a in second]
+    ops.append({"op": "apply", "obj": r, "ev": "E0", "tag": f"restarted:{r}"})
+    ops += [{"op": "new", "obj": t, "cls": "LayerRule"},
+            {"op": "call", "obj": t, "m": "based_on", "a": [{"$obj": "SR"}]},
+            {"op": "call", "obj": t, "m": "layers_that", "a": []}]
+    ops += [{"op": "call", "obj": t, "m": m, "a": a} for m, a in second]
+    ops.append({"op": "apply", "obj": t, "ev": "E0", "twin_of": f"restarted:{r}"})
+    return ops
+
+
 def generate(seed, index):
     if index < n_sweep_plans():
         return generate_sweep(seed, index)
@@ -304,7 +354,10 @@ def generate(seed, index):
     for c in range(nclients):
         roll = rng.random()
         slot = index * 4 + c
-        if roll < 0.35:
+        if roll < 0.04:
+            kind = "rule_sentence_started_over"
+            ops = _restart_ops(rng, c)
+        elif roll < 0.35:
             kind = "enum_arch"
             seqno = slot % len(arch_enum)
             ops, _ = _arch_ops(f"A{c}", arch_enum[seqno])
@@ -357,6 +410,9 @@ def generate(seed, index):
                              watch=(f"A{c}", ["LC", "LD"]))
         kinds.append(kind)
         clients.append(ops)
+    restart = "rule_sentence_started_over" in kinds
+    if restart:
+        setup = setup + _restart_setup()
     clients[0] = setup + clients[0]
     schedule = [0] * len(setup)
     rest = []
@@ -371,9 +427,9 @@ def generate(seed, index):
         "prop": "C16",
         "index": index,
         "seed": seed,
-        "vocab": VOCAB,
-        "world": {},
-        "cfgs": {},
+        "vocab": VOCAB + (RESTART_LAYERS if restart else []),
+        "world": RESTART_WORLD if restart else {},
+        "cfgs": RESTART_CFGS if restart else {},
         "clients": clients,
         "schedule": schedule,
         "meta": {"client_kinds": kinds, "interleaved": rest != sorted(rest)},
